@@ -123,11 +123,11 @@ Theorem C20_multi_object_checked : forall k sch d evs,
 Proof. exact flush_checked. Qed.
 Print Assumptions C20_multi_object_checked.
 
-(* The error raised when an UPDATE with optimistic criteria finds no row: OptimisticCheckError inside every db_session
-   (exact complement of the recorded finding: outside a db_session it is an AttributeError). *)
-Theorem C20_rowcount0_except_known : forall ds, ds <> None -> rowcount0_outcome ds = rowcount0_spec ds.
-Proof. exact rowcount0_except_known. Qed.
-Print Assumptions C20_rowcount0_except_known.
+(* The error raised when an UPDATE with optimistic criteria finds no row: OptimisticCheckError whenever the criteria were
+   built, i.e. inside an optimistic db_session and outside any db_session (interactive mode). *)
+Theorem C20_rowcount0 : forall ds, rowcount0_outcome ds = rowcount0_spec ds.
+Proof. exact rowcount0_ok. Qed.
+Print Assumptions C20_rowcount0.
 
 (* Non-vacuity: the classic lost update.  Two sessions run `obj.a = obj.a + 1; commit` on a = 10, interleaved
    read / read / write+commit / write+commit: the first commits (a = 11), the second ends in OptimisticCheckError. *)
